@@ -59,6 +59,12 @@ def c07():
                       "shortened / lengthened paths: whenever a proof with m path hashes verifies, exactly m+1 hashes were computed (no early acceptance, no skipped element) - needs no hash assumption  [thorough-tier ATTEMPT: 2 leaves did not finish in 660 s]",
                       "%d leaves, every leaf, honest proof with an arbitrary hash appended / prepended or an end removed" % n,
                       env={"VH_NLEAF": n}, tag="_n%d" % n, est=150 * n, loops=HL, replay="model"))
+    for n, plens, tiers in [(3, (0, 1, 2, 3), "qt"), (4, (0, 1, 2, 3), "qt"), (5, (0, 1, 3, 4), "t"), (7, (0, 2, 4, 5), "t")]:
+        for pl_ in plens:
+            obs.append(ob("c07b::verify_is_the_defining_fold", tiers, 8,
+                          "MerkleProof::verify on an ARBITRARY proof accepts exactly when the defining fold over the WHOLE path (element hash at its position, one sibling per level, bagged right peaks, left peaks) yields the root: no early acceptance, no skipped or reordered hash, right hash indices; altered / shortened / lengthened proofs are then rejected unless the hash collides",
+                          "%d leaves, EVERY position of the mmr, path of %d symbolic hashes, symbolic element and root" % (n, pl_),
+                          env={"VH_NLEAF": n, "VH_PLEN": pl_}, tag="_n%d_p%d" % (n, pl_), est=150, loops=HL, recurse={"MerkleProof::verify": pl_ + 3, "MerkleProof::verify_consume": pl_ + 3}))
     for n, leaf, kind in [(2, 1, 1), (2, 1, 2), (2, 1, 3), (3, 2, 1), (3, 2, 3)]:
         obs.append(ob("c07b::merkle_proof_sound", "t", 8,
                       "under the ideal hash: other element (kind 1) / other position (2) / altered path hash (3) never verify  [thorough-tier ATTEMPT: did not finish in 30 min at 3 leaves]",
